@@ -266,6 +266,7 @@ theorem loop_rel (t : TTree) (c : Nat) (cs : TCmd) (fs : FlagSet) (args : List S
 theorem seriesFix_embed (fs : FlagSet) (flagOk : Bool) (inArgs : List Str) (value : Str) :
     traverseSlotG.seriesFix (fs.map embed) flagOk inArgs value = traverseSlot.seriesFix fs flagOk inArgs value := by
   unfold traverseSlotG.seriesFix traverseSlot.seriesFix
+  rw [isPosixG_embed, Bool.and_true]
   split
   · rw [lookupArgG_posix]
     cases lookupArg fs value with
@@ -278,7 +279,8 @@ theorem flagOrPositional_embed (cs : TCmd) (fs : FlagSet) (c : Nat) (flagOk : Bo
       traverseSlot.flagOrPositional cs fs c flagOk p value := by
   unfold traverseSlotG.flagOrPositional traverseSlot.flagOrPositional
   have e1 : (embedCmd cs).noFlagParse = cs.noFlagParse := rfl
-  rw [e1]
+  rw [e1, isPosixG_embed]
+  simp only [Bool.true_and]
   split
   · rw [lookupArgG_posix]
     cases lookupArg fs value with
